@@ -36,13 +36,59 @@ func (o infOp) line() string {
 	return "inf close"
 }
 
+// responseFrame: a page of a continuous-paging result (not the last one), or a FINAL response of one of several kinds — the last
+// page, an ERROR ending the paging session, a SUPPORTED, a SET_KEYSPACE result. What the handler does with a frame must depend
+// only on its stream id and on whether it is final; the tag travels in a field of each kind.
 func responseFrame(id int, last bool, tag int) *frame.Frame {
-	m := &message.RowsResult{Metadata: &message.RowsMetadata{ContinuousPageNumber: int32(tag + 1), LastContinuousPage: last}}
+	var m message.Message = &message.RowsResult{Metadata: &message.RowsMetadata{ContinuousPageNumber: int32(tag + 1), LastContinuousPage: last}}
+	if last {
+		switch (tag + id) % 4 {
+		case 1:
+			m = &message.ServerError{ErrorMessage: fmt.Sprint(tag)}
+		case 2:
+			m = &message.Supported{Options: map[string][]string{"tag": {fmt.Sprint(tag)}}}
+		case 3:
+			m = &message.SetKeyspaceResult{Keyspace: fmt.Sprint(tag)}
+		}
+	}
 	return frame.NewFrame(primitive.ProtocolVersionDse2, int16(id), m)
 }
 
 func tagOf(f *frame.Frame) int {
-	return int(f.Body.Message.(*message.RowsResult).Metadata.ContinuousPageNumber) - 1
+	n := 0
+	switch m := f.Body.Message.(type) {
+	case *message.RowsResult:
+		return int(m.Metadata.ContinuousPageNumber) - 1
+	case *message.ServerError:
+		fmt.Sscan(m.ErrorMessage, &n)
+	case *message.Supported:
+		fmt.Sscan(m.Options["tag"][0], &n)
+	case *message.SetKeyspaceResult:
+		fmt.Sscan(m.Keyspace, &n)
+	}
+	return n
+}
+
+// requestFrame: requests of several kinds, among them the DSE REVISE_REQUEST that cancels (or asks for more pages of) the
+// continuous-paging session of ANOTHER stream id: it is a request like any other as far as stream ids are concerned
+func requestFrame(i, id int, target int) *frame.Frame {
+	var m message.Message
+	v := primitive.ProtocolVersionDse2
+	switch (i*7 + id*3) % 6 {
+	case 0:
+		m = &message.Options{}
+	case 1:
+		m = &message.Query{Query: "SELECT 1", Options: &message.QueryOptions{ContinuousPagingOptions: &message.ContinuousPagingOptions{MaxPages: 3}}}
+	case 2:
+		m = &message.Revise{RevisionType: primitive.DseRevisionTypeCancelContinuousPaging, TargetStreamId: int32(target)}
+	case 3:
+		m = &message.Revise{RevisionType: primitive.DseRevisionTypeMoreContinuousPages, TargetStreamId: int32(target), NextPages: 2}
+	case 4:
+		m = &message.Register{EventTypes: []primitive.EventType{primitive.EventTypeStatusChange}}
+	default:
+		m = &message.Prepare{Query: "SELECT 2"}
+	}
+	return frame.NewFrame(v, int16(id), m)
 }
 
 // runHistory executes one history on the real handler, returns the canonical outputs and evaluates the oracles.
@@ -87,7 +133,13 @@ func runHistory(n, pending int, ops []infOp, res *lp.Result, prop string) []stri
 			if o.id != 0 {
 				managedOnly = false
 			}
-			f := frame.NewFrame(primitive.ProtocolVersion4, int16(o.id), &message.Options{})
+			target := 1
+			for rid := range registered {
+				if rid > target || target == 1 {
+					target = rid
+				}
+			}
+			f := requestFrame(i, o.id, target)
 			req, err := h.Send(f)
 			if err != nil {
 				outs = append(outs, "err")
